@@ -11,6 +11,7 @@ def dispatch (line : String) : String :=
   | "unpack" :: rest => unpackEngine rest
   | "pack" :: rest => packEngine rest
   | "pick" :: rest => pickEngine rest
+  | "fetch" :: rest => fetchEngine rest
   | _ => "bad-op"
 
 partial def loop (hin hout : IO.FS.Stream) : IO Unit := do
